@@ -52,6 +52,31 @@ type zzChainModel struct {
 	sent       []*wire.MsgTx
 	notifyErr  error
 	notified   []btcutil.Address
+	// block contents (C16 recovery): height -> transactions
+	txsAt  map[int32][]*wire.MsgTx
+	params *chaincfg.Params
+}
+
+// FilterBlocks: what chain.RPCClient.FilterBlocks does after its compact
+// filter pre-check - the real chain.BlockFilterer run over each requested
+// block, stopping at the first block with a match.
+func (c *zzChainModel) FilterBlocks(req *chain.FilterBlocksRequest) (*chain.FilterBlocksResponse, error) {
+	bf := chain.NewBlockFilterer(c.params, req)
+	for i, blk := range req.Blocks {
+		msg := &wire.MsgBlock{Transactions: c.txsAt[blk.Height]}
+		if !bf.FilterBlock(msg) {
+			continue
+		}
+		return &chain.FilterBlocksResponse{
+			BatchIndex:         uint32(i),
+			BlockMeta:          blk,
+			FoundExternalAddrs: bf.FoundExternal,
+			FoundInternalAddrs: bf.FoundInternal,
+			FoundOutPoints:     bf.FoundOutPoints,
+			RelevantTxns:       bf.RelevantTxns,
+		}, nil
+	}
+	return nil, nil
 }
 
 func zzHash(height int32, fork int) chainhash.Hash {
@@ -184,7 +209,8 @@ func zzNewWalletWorldWith(params *chaincfg.Params, base int32, n int) *zzWalletW
 	w, err := Open(ww.db, zzWPub, nil, ww.params, 0)
 	zzW(err)
 	ww.w = w
-	c := &zzChainModel{base: base, ntfns: make(chan interface{}), tsOf: map[[2]int32]int64{}, nextFrk: 1}
+	c := &zzChainModel{base: base, ntfns: make(chan interface{}), tsOf: map[[2]int32]int64{}, nextFrk: 1,
+		txsAt: map[int32][]*wire.MsgTx{}, params: params}
 	for i := 0; i < n; i++ {
 		c.blocks = append(c.blocks, zzBlk{height: base + int32(i)})
 	}
